@@ -6,7 +6,8 @@ From Y Require Import Prelude Node Tables NodeOps OpsRun Types Recognize Loader 
 Open Scope N_scope.
 
 Record loadcase := { lc_oracle : oracle; lc_specs : list cls_spec; lc_type : ty;
-                     lc_doc : option node; lc_expect : result value }.
+                     lc_doc : option node; lc_expect : result value;
+                     lc_calls : option (list call)   (* user-code calls the implementation logged, if compared *) }.
 
 Definition outcome_eqb (a b : result value) : bool :=
   match a, b with
@@ -16,9 +17,55 @@ Definition outcome_eqb (a b : result value) : bool :=
   end.
 Definition run_load (c : loadcase) : result value :=
   load (lc_oracle c) (interp_reg (lc_oracle c) (lc_specs c)) (lc_doc c) (lc_type c).
+(* every call into user code the implementation made is one the model's construction can make: the calls of a
+   construction in which no user constructor refuses (PyYAML defers generator bodies, so on a FAILING load the
+   set of calls made before the failure depends on its scheduling; the potential calls bound it from above, and
+   on a successful load the two multisets coincide) *)
+Definition permissive (k : cls) : cls :=
+  {| c_name := c_name k; c_bases := c_bases k; c_ancestors := c_ancestors k; c_abstract := c_abstract k;
+     c_shape := c_shape k; c_recognize := c_recognize k; c_savorize := c_savorize k; c_sweeten := c_sweeten k;
+     c_init_ok := fun _ => true; c_str_ok := fun _ => true |}.
+Definition potential_calls (c : loadcase) : list call :=
+  let reg := interp_reg (lc_oracle c) (lc_specs c) in
+  match process (lc_oracle c) reg FUEL (match lc_doc c with Some n => n | None => Scalar tag_null [] nomark end) (lc_type c) with
+  | Ok n' => fst (constructL (lc_oracle c) (map permissive reg) FUEL n')
+  | Err _ => []
+  end.
+Definition kw_eqb (a b : list (ustring * value)) : bool :=
+  (fix go (a b : list (ustring * value)) : bool :=
+     match a, b with
+     | [], [] => true
+     | (k, v) :: r, (k', v') :: r' => ueqb k k' && value_eqb v v' && go r r'
+     | _, _ => false end) a b.
+Definition call_eqb (a b : call) : bool :=
+  match a, b with
+  | CallInit c x, CallInit c' x' => ueqb c c' && kw_eqb x x'
+  | CallStr c s, CallStr c' s' => ueqb c c' && ueqb s s'
+  | _, _ => false
+  end.
+Fixpoint remove_call (x : call) (l : list call) : option (list call) :=
+  match l with
+  | [] => None
+  | y :: r => if call_eqb x y then Some r
+              else match remove_call x r with Some r' => Some (y :: r') | None => None end
+  end.
+Fixpoint sub_multiset (a b : list call) : bool :=
+  match a with
+  | [] => true
+  | x :: r => match remove_call x b with Some b' => sub_multiset r b' | None => false end
+  end.
+Definition calls_ok (c : loadcase) : bool :=
+  match lc_calls c with
+  | None => true
+  | Some impl =>
+      let pot := potential_calls c in
+      sub_multiset impl pot &&
+      match lc_expect c with Ok _ => Nat.eqb (List.length impl) (List.length pot) | Err _ => true end
+  end.
+
 (* the model agrees with the implementation's outcome, and the case satisfies the hypotheses of the theorems *)
 Definition loadcase_ok (c : loadcase) : bool :=
-  outcome_eqb (run_load c) (lc_expect c)
+  outcome_eqb (run_load c) (lc_expect c) && calls_ok c
   && oracle_wfb (lc_oracle c) && wf_registryb (interp_reg (lc_oracle c) (lc_specs c)).
 
 Fixpoint lmism_from (i : N) (l : list loadcase) : list N :=
